@@ -745,6 +745,8 @@ def run(ctx):
         # corpus histories are short and probabilistic: run each a few times
         hs = [dict(h, id="%s#%d" % (h["id"], j)) for h in corpus for j in range(2 if ctx.quick else 6)]
         n = 30 if ctx.quick else 1000
+        if os.environ.get("VERIF_C01_N"):
+            n = int(os.environ["VERIF_C01_N"])      # development knob: number of generated histories
         for i in range(n):
             hs.append(gen_history(ctx.rng, k, "g%d" % i, ctx.quick))
         for i in range(max(4, n // 8)):
